@@ -29,6 +29,9 @@ pub const DEAD: u64 = 0xDEAD_0B1E_C7DE_AD00;
 pub const POISON64: u64 = 0xDDDD_DDDD_DDDD_DDDD;
 
 pub static EPOCH: AtomicU32 = AtomicU32::new(1);
+/// number of threads currently inside a collection request, and the maximum seen (C19 evidence)
+pub static IN_COLLECT: AtomicU32 = AtomicU32::new(0);
+pub static MAX_IN_COLLECT: AtomicU32 = AtomicU32::new(0);
 
 pub const NSLOTS: usize = 4; // 0..3 traced, 3 untraced
 pub const UNTRACED: usize = 3;
@@ -1332,6 +1335,15 @@ pub fn prim_collect() {
     let exec0 = state::executions_count().unwrap_or(0);
     let ev0 = w(|w| w.ev);
     {
+        struct C;
+        impl Drop for C {
+            fn drop(&mut self) {
+                IN_COLLECT.fetch_sub(1, Ordering::SeqCst);
+            }
+        }
+        let n = IN_COLLECT.fetch_add(1, Ordering::SeqCst) + 1;
+        MAX_IN_COLLECT.fetch_max(n, Ordering::SeqCst);
+        let _c = C;
         let _b = Bracket::open();
         collect_cycles();
     }
